@@ -84,7 +84,10 @@ Judge(r) ==
     [] r.k = "parse" ->        \* r.b parsed by the implementation to r.items, re-serialized to r.ser
          LET p == ParseScript(r.b) IN
          IF ~p.ok THEN Bad("spec-cannot-parse", "", <<>>)
-         ELSE IF r.strict_refused /\ ~SigShapedPushIn(r.b) THEN Bad("strict-parse-refused-wellformed-script", "", JItems(p.items))
+         \* (a whole script of blob shape is taken for a signature / key: in strict mode it is then refused as a malformed one -
+         \* the same named deviation as reporting it as one data item)
+         ELSE IF r.strict_refused /\ ~SigShapedPushIn(r.b)
+              THEN Bad("strict-parse-refused-wellformed-script", IF BlobShape(r.b) THEN "script-blob-heuristic" ELSE "", JItems(p.items))
          ELSE IF FromJ(r.items) = p.items /\ r.ser = r.b THEN Ok
          ELSE Bad(IF FromJ(r.items) # p.items THEN "script-parse-items" ELSE "script-reserialize",
                   IF BlobShape(r.b) /\ FromJ(r.items) = <<Data(r.b)>> THEN "script-blob-heuristic"
